@@ -503,7 +503,14 @@ where
             return;
         }
         // matrix of weighted model function values
-        let Phi_w = self.model.eval().ok().map(|Phi| &self.weights * Phi);
+        // a non-finite matrix must not be handed to the SVD (which would panic or
+        // never terminate); it is treated like a failed model evaluation
+        let Phi_w = self
+            .model
+            .eval()
+            .ok()
+            .map(|Phi| &self.weights * Phi)
+            .filter(|Phi_w| Phi_w.iter().all(|value| value.is_finite()));
 
         // calculate the svd
         let svd_epsilon = self.svd_epsilon;
@@ -642,7 +649,14 @@ where
             return;
         }
         // matrix of weighted model function values
-        let Phi_w = self.model.eval().ok().map(|Phi| &self.weights * Phi);
+        // a non-finite matrix must not be handed to the SVD (which would panic or
+        // never terminate); it is treated like a failed model evaluation
+        let Phi_w = self
+            .model
+            .eval()
+            .ok()
+            .map(|Phi| &self.weights * Phi)
+            .filter(|Phi_w| Phi_w.iter().all(|value| value.is_finite()));
 
         // calculate the svd
         let svd_epsilon = self.svd_epsilon;
